@@ -349,8 +349,18 @@ func (s *streamGRPC) decompress(dst *bytes.Buffer, b []byte) error {
 	if err != nil {
 		return err
 	}
-	if _, err := dst.ReadFrom(r); err != nil {
+	// The receive limit applies to the decompressed message: inflate at most
+	// one byte more than the limit to detect an oversized message.
+	limit := int64(s.opts.maxReceiveMessageSize)
+	if limit < math.MaxInt64 {
+		limit++
+	}
+	n, err := dst.ReadFrom(io.LimitReader(r, limit))
+	if err != nil {
 		return err
+	}
+	if n > int64(s.opts.maxReceiveMessageSize) {
+		return fmt.Errorf("grpc: received message after decompression larger than max (%d)", s.opts.maxReceiveMessageSize)
 	}
 	return nil
 }
